@@ -198,20 +198,30 @@ def run(prog, rep, tier, repo):
         cls = pdb.closures_of(k)
         ok = False
         why = ''
+        read = False          # the written form is the read one: a map over an index range whose closure combines two indexed reads of one base
         if len(cls) == 1:
             g = prog.func(cls[0].key)
             rv = g.return_values()
             i = ('arg', 2, g.names.get(2))
+            rng = [z for c in f.calls() for a_ in c.args for z in subterms(a_) if tag(z) == 'range']
+            if len(rv) == 1 and tag(rv[0]) == 'bin' and rv[0][4] in ('f64', 'f32') and tag(rv[0][2]) == 'index' and tag(rv[0][3]) == 'index' \
+                    and rv[0][2][1] == rv[0][3][1] and len(set(rng)) == 1 and not any(c.path and c.path in pdb.bodies and '{closure#' not in c.path for c in f.calls()):
+                read = True
             if len(rv) == 1 and tag(rv[0]) == 'bin' and rv[0][1] == 'Sub':
                 a, b = rv[0][2], rv[0][3]
                 oka = tag(a) == 'index' and peq(psub(poly(a[2]), poly(i)), {(): 1})
                 okb = tag(b) == 'index' and peq(poly(b[2]), poly(i)) and a[1] == b[1]
                 ok = oka and okb
                 why = show(rv[0])
-            rng = [z for c in f.calls() for a_ in c.args for z in subterms(a_) if tag(z) == 'range']
             okr = any(tag(z[1]) == 'const' and z[1][2] == 0 and peq(poly(z[2]), {(('len', v),): 1, (): -1}) for z in rng)
             ok = ok and okr
-        (rep.ok if ok else rep.viol)('difference', key, 'out[i] = v[i+1] - v[i] for i in 0..len-1' if ok else 'difference is not v[i+1] - v[i] over 0..len-1 (%s)' % why, site_of(f.body))
+        if ok:
+            rep.ok('difference', key, 'out[i] = v[i+1] - v[i] for i in 0..len-1')
+        elif read:
+            rep.viol('difference', key, 'difference is not v[i+1] - v[i] over 0..len-1 (%s)' % why, site_of(f.body))
+        else:
+            rep.undecided('difference', key, 'difference is not written as a map over an index range combining v[i+1] and v[i] (%s): not read' % (why or 'no single closure'),
+                          site_of(f.body), proof=False)
     rep.floor('difference', 1, 'difference')
 
     # ------------------------------------------------------------------ D3 / D4 fit
